@@ -532,10 +532,17 @@ where
         _ => 16,
     };
     let dg = state_digest(a);
-    cx.out.emit(json!({"run": run, "ev": "Built", "type": meta.ty, "cfg": meta.cfg, "det": meta.det, "sup": meta.sup,
+    let mut built = json!({"run": run, "ev": "Built", "type": meta.ty, "cfg": meta.cfg, "det": meta.det, "sup": meta.sup,
         "prec": meta.prec, "hasEq": eq.is_some(), "n": d.x.len(), "p": d.x[0].len(),
         "xd": dig_rows(&d.x), "yd": dig_rows(&[d.y.clone()]),
-        "obs": obs_value(&base, s), "digok": dg.is_some(), "dig": dig_json(dg.unwrap_or(0))}));
+        "obs": obs_value(&base, s), "digok": dg.is_some(), "dig": dig_json(dg.unwrap_or(0))});
+    if std::env::var("C19_DUMP").is_ok() {
+        // debugging aid: C19_DUMP=1 adds the training data to the Built events
+        built["x"] = json!(d.x);
+        built["y"] = json!(d.y);
+        built["q"] = json!(d.q);
+    }
+    cx.out.emit(built);
 
     let mut fmts = vec!["bincode", "json"];
     if meta.jsonperm {
@@ -807,6 +814,14 @@ fn gen_models(path: &str) {
                 ("coefficients", Ok(mat_obs(o.coefficients()))), ("intercept", Ok(ObsB::cont(vec![o.intercept()])))] },
         Some(|a, b| a == b));
     for (name, kind) in [("binary", Kind::Cls2), ("multiclass", Kind::Cls3)] {
+        if name == "binary" {
+            // met on every seed: six rows in four dimensions, linearly separable -- the L-BFGS fit
+            // runs away and returns Ok with NaN coefficients (found by the seed sweep)
+            cx.fixed = vec![Data { kind: Kind::Cls2,
+                x: vec![vec![6., -5., 2., -3.], vec![1., -4., 1., 2.], vec![-4., -2., 6., -2.], vec![-5., 2., -4., 6.], vec![-1., -2., -5., -4.], vec![4., 0., 6., 2.]],
+                y: vec![3., 3., 2., 3., 2., 3.],
+                q: vec![vec![-5., -6., 4., -4.], vec![-3., -6., 8., -5.], vec![-3., 7., -6., 7.], vec![3., -1., 3., 1.], vec![-1., 6., -2., -5.], vec![-1., 5., 2., -2.]] }];
+        }
         drive(cx, next(), reps, m("LogisticRegression", name, true, true), kind, None,
             |d: &Data| LogisticRegression::fit(&mat::<f64>(&d.x), &d.y, Default::default()),
             |o: &LogisticRegression<f64, M64>, d: &Data| -> PartList { vec![("predict", o.predict(&mat(&d.q)).map(ObsB::disc)),
@@ -912,6 +927,10 @@ fn gen_models(path: &str) {
     cx.fixed = vec![Data { kind: Kind::CntZ,
         x: vec![vec![0., 0.], vec![0., 0.], vec![0., 0.], vec![1., 2.], vec![2., 1.], vec![3., 1.], vec![0., 2.], vec![1., 0.]],
         y: vec![0., 0., 0., 1., 1., 1., 1., 1.],
+        q: vec![vec![1., 0.], vec![0., 2.], vec![2., 2.], vec![0., 0.], vec![1., 1.], vec![3., 0.]] },
+        Data { kind: Kind::CntZ,
+        x: vec![vec![0., 1.], vec![0., 3.], vec![0., 2.], vec![1., 2.], vec![2., 1.], vec![3., 1.], vec![0., 2.], vec![1., 0.]],
+        y: vec![0., 0., 0., 1., 1., 1., 1., 1.],
         q: vec![vec![1., 0.], vec![0., 2.], vec![2., 2.], vec![0., 0.], vec![1., 1.], vec![3., 0.]] }];
     drive(cx, next(), reps, m("MultinomialNB", "alpha=0", true, true), Kind::CntZ, None,
         |d: &Data| MultinomialNB::fit(&mat::<f64>(&d.x), &d.y, MultinomialNBParameters::default().with_alpha(0.0)),
@@ -920,6 +939,17 @@ fn gen_models(path: &str) {
             ("n_features", Ok(counts(&[o.n_features()]))), ("feature_count", Ok(counts2(o.feature_count()))),
             ("feature_log_prob", Ok(vals2(o.feature_log_prob())))] },
         Some(|a, b| a == b));
+    // met on every seed: labels {0,1} (category 2 of feature 0 unseen in class 0 -> -inf) and the
+    // same data with labels {1,2} (CategoricalNB indexes classes by label value, class 0 is then
+    // empty -> ln(0/0) = NaN)
+    {
+        let x = vec![vec![0., 1.], vec![1., 0.], vec![0., 2.], vec![1., 1.], vec![2., 0.], vec![2., 2.], vec![1., 2.], vec![2., 1.]];
+        let q = vec![vec![0., 0.], vec![1., 2.], vec![2., 1.], vec![0., 2.], vec![1., 1.], vec![2., 2.]];
+        cx.fixed = vec![
+            Data { kind: Kind::CatZ, x: x.clone(), y: vec![0., 0., 0., 0., 1., 1., 1., 1.], q: q.clone() },
+            Data { kind: Kind::CatZ, x, y: vec![1., 1., 1., 1., 2., 2., 2., 2.], q },
+        ];
+    }
     drive(cx, next(), reps, m("CategoricalNB", "alpha=0", true, true), Kind::CatZ, None,
         |d: &Data| CategoricalNB::fit(&mat::<f64>(&d.x), &d.y, CategoricalNBParameters::default().with_alpha(0.0)),
         |o: &CategoricalNB<f64, M64>, d: &Data| -> PartList { vec![("predict", gp(|| o.predict(&mat(&d.q)).map(ObsB::disc))),
